@@ -1,0 +1,15 @@
+//go:build verif
+
+package forwarder
+
+import "github.com/ThreeDotsLabs/watermill/message"
+
+// VerifWrapMessageInEnvelope exposes wrapMessageInEnvelope to the verification harness.
+func VerifWrapMessageInEnvelope(destinationTopic string, msg *message.Message) (*message.Message, error) {
+	return wrapMessageInEnvelope(destinationTopic, msg)
+}
+
+// VerifUnwrapMessageFromEnvelope exposes unwrapMessageFromEnvelope to the verification harness.
+func VerifUnwrapMessageFromEnvelope(msg *message.Message) (string, *message.Message, error) {
+	return unwrapMessageFromEnvelope(msg)
+}
